@@ -79,9 +79,12 @@ CLAIMS = {
              "directory it was given or one it opened that way, and it makes no other mutating call; the creating loop of "
              "mkdir_all only creates/enters non-empty proper components (the '..' check and the filter are part of the theorem); "
              "a trailing slash makes create/remove_all equal to 'resolve parent; close; InvalidArgument' (the mutating call is "
-             "unreachable); the single-entry operations call (resolved parent descriptor, single component) [Disc]. Tie: all "
-             "mutating operations on generated trees on both backends replayed through the model. Oracle: snapshot of a sentinel "
-             "tree surrounding the root before/after every call.",
+             "unreachable); the single-entry operations call (resolved parent descriptor, single component) [Disc]; the creating "
+             "open of create_file never names '.' or '..' whatever the open flags (with O_PATH the kernel ignores O_CREAT and "
+             "'..' would be a plain lookup of the root's parent: finding F24, repaired). Tie: all "
+             "mutating operations on generated trees on both backends replayed through the model (create_file over all open "
+             "flags). Oracle: snapshot of a sentinel tree surrounding the root before/after every call; every descriptor an "
+             "operation hands back points into the root's tree.",
         note="Semantic half (the parent descriptor was inside the root at some moment) rests on C02's containment argument and "
              "the kernel's fd-relative semantics; attacker interleavings are covered by the theorems (any environment) and by "
              "C02's attacker suite, not by this suite.",
@@ -142,9 +145,11 @@ CLAIMS = {
         text="Lean theorems (Props/C08.lean): the ENOENT retry of ProcfsHandle::open has recursion depth at most one for every "
              "environment — openH (n+2) = openH 2 as programs, an unmasked handle never retries, hence at most one additional "
              "handle per lookup and the model's fuel is never exhausted. Tie and oracle: {default, hidepid=1, hidepid=2, "
-             "hidepid=ptraceable, subset=pid, subset=pid+hidepid=2} mounted as /proc in fresh mount+pid namespaces x {root, uid "
-             "65534} x handle constructors x resolvers x {existing, missing, masked} paths: replayed through the model; missing "
-             "paths must report ENOENT, at most one handle may be created per call, the call count is bounded.",
+             "hidepid=ptraceable, subset=pid, subset=pid+hidepid=2} mounted as /proc in fresh mount+pid namespaces x {root, root of a "
+             "user namespace that owns its mount namespace but not the pid namespace (open_tree works, mounting procfs does not), "
+             "uid 65534} x handle constructors x resolvers x {existing, missing, masked} paths: replayed through the model; missing "
+             "paths must report ENOENT, at most one handle may be created per call, the call count is bounded (RLIMIT_NOFILE 256; a "
+             "harness that dies or hangs in an environment is a violation).",
         note="Before the repair of F3 the depth theorem was false (the recursion was unbounded on an unprivileged hidepid host). "
              "Peak descriptor use is measured through the recorded handle-creating calls, not through rlimits.",
         technique="Lean 4 proof (program equality: fuel irrelevance) + privilege x /proc-option matrix in namespaces",
@@ -156,13 +161,23 @@ CLAIMS = {
              "handle; for every environment a symlink answer ends the run with ELOOP and no further call; O_NOFOLLOW is stripped "
              "and no other bit changes; C09_no_fallback_on_unrelated_failure: for every environment a successful open_follow had a "
              "readlink probe that succeeded or failed with exactly EINVAL/ENOENT — any other probe failure is the result, never an "
-             "O_NOFOLLOW open of the magic-link itself (finding F22, repaired); on a world, reopen returns the handle's own object "
-             "(KOpen.run_reopen). Tie and oracle: handles to every inode type x forced descriptor numbers 0..1023 x "
-             "rename/replace/unlink histories x flag sets: replayed; (st_dev, st_ino), access mode, status flags and FD_CLOEXEC of "
-             "the result vs the handle; reopen under single injected faults (every index x 12 errnos x {file, dir, fifo} x 4 flag "
-             "sets): an error or the handle's inode, never another object.",
-        note="That thread-self/fd/<n> leads to the inode of descriptor n is the kernel's magic-link contract (MagicLinkSameInode), "
-             "exercised by the tie. Over-mounts on /proc: corollary of C06 (the link is verified with verify_same_mnt).",
+             "O_NOFOLLOW open of the magic-link itself (findings F22, F25, repaired; ENAMETOOLONG = a link whose target cannot be "
+             "printed: the following half runs); C09_follow_verified: for every environment the library's one openat without "
+             "O_NOFOLLOW is made on (a directory ProcfsHandle::open returned, one component) only after statx of the directory and "
+             "of the component stood for the same mount, and its answer is the result; on a world, reopen returns the handle's own "
+             "object (KOpen.run_reopen); C09_reopen_on_mounts / C09_open_follow_on_mounts (Proofs/KProcOpen.lean, KProcReopen.lean): "
+             "on every procfs tree with ANY mount layout, reopen(fd) returns what the entry fd/<fd> leads to, that entry being on "
+             "the handle's own mount in a directory on the handle's own mount — anything mounted over thread-self, the fd directory "
+             "or the magic-link makes the call fail. Tie and oracle: handles to every inode type x forced descriptor numbers "
+             "0..1023 x histories {none, rename, replace, unlink, moved below a path longer than PATH_MAX} x flag sets, every "
+             "spelling of a creation request per target: replayed; kernel reference (raw open of /proc/self/fd/<n> with the same "
+             "flags just before the call): success exactly where that succeeds, same inode, same errno otherwise; access mode, "
+             "status flags and FD_CLOEXEC; reopen under single injected faults (every index x 12 errnos x {file, dir, fifo} x 4 "
+             "flag sets): an error or the handle's inode; reopen-overmount: self/thread-self replaced by symlinks into a decoy "
+             "process holding another file under the same number, tmpfs over the fd directory x every handle kind x resolver.",
+        note="That thread-self/fd/<n> leads to the inode of descriptor n is the kernel's magic-link contract (MagicLinkSameInode; "
+             "PWorld.target in the mount theorems), exercised by the tie. The mount theorems are for the emulated resolver on a "
+             "handle that is not masked.",
         technique="Lean 4 proof (total/injective function, program shape, run inversion) + descriptor-number x history differential",
         ref="DESIGN.md §8 C09"),
     "C10": dict(
@@ -202,12 +217,19 @@ CLAIMS = {
              "open_subpath, reopen, readlink, create, create_file, remove_file/remove_dir, rename, mkdir_all, remove_all, the "
              "partial lookup and the unmasked-handle constructor; on every success path, every error path, under every fault "
              "placement and attacker schedule (these are environments), unless the run ended in a fatal model error (an answer of an "
-             "impossible shape, exhausted model fuel). Tie: the model closes descriptors explicitly where Rust drops them; on every "
+             "impossible shape, exhausted model fuel). Whole sessions (C11_session_at_most_one_long_lived, Session.lean + "
+             "Proofs/SessionLedger.lean): the process-global procfs cell (get_or_try_init(ProcfsHandle::new)) is part of the model; "
+             "after any sequence of library calls of one process, each balanced on its own, the ledger holds exactly the descriptors "
+             "returned to the caller plus at most one — the cell's handle, created by the first call that needed it; a failed "
+             "creation leaves nothing open and the cell empty; once filled, no call creates another handle. "
+             "Tie: the model closes descriptors explicitly where Rust drops them; on every "
              "replayed case the multiset of descriptors the model closes must equal the multiset the implementation closed "
              "(close(2) and fcntl(F_DUPFD_CLOEXEC) are interposed in the harness), and the model driver evaluates the same ledger "
              "on the recorded calls of the implementation. Oracle: the process's descriptor table (number, identity, FD_CLOEXEC) "
              "before/after every API call of the suite, on success and error paths, Rust and C API; the handle constructors in "
-             "three privilege situations; strace cross-check of the recorder (descriptors opened or closed behind its back).",
+             "three privilege situations; strace cross-check of the recorder (descriptors opened or closed behind its back); first use "
+             "in forked fresh processes (no warm-up), three orders of first call: the only descriptor that outlives a call is the one "
+             "process-global procfs handle (close-on-exec, root of a procfs).",
         note="RAII is the runtime mechanism the model mirrors by hand (shared ownership Rc<OwnedFd> = descriptor numbers; freshness "
              "of kernel-issued numbers is the hypothesis that makes the two coincide). rustix::fs::Dir's private descriptor is "
              "inside the dir_open/dir_next abstraction of the model (its close is visible to the recorder and matched by the "
@@ -274,7 +296,9 @@ CLAIMS = {
              "remove_dir, rename and create_file is call by call: the in-root resolution (the program C01/C02 are about) of the parent part "
              "as split by path_split; exactly one mutating *at call on (that descriptor, final name) which the kernel acknowledged — for "
              "create_file one openat with O_CREAT|O_NOFOLLOW|O_CLOEXEC|O_NOCTTY whose answer is the returned descriptor; closing the "
-             "parent(s); nothing else. The final name is one non-empty slash-free component; a trailing slash never reaches the mutating "
+             "parent(s); nothing else (C14_createFile_shape: on a name that is neither '.' nor '..'; C14_frame_create_file_dots: such a "
+             "final component is refused with EISDIR, tree unchanged, whatever the open flags — finding F24). "
+             "The final name is one non-empty slash-free component; a trailing slash never reaches the mutating "
              "call (C03_trailing_slash_*); C14_parent_is_spec / C14_parent_inside_root: when the parent lookup's answers come from a "
              "well-formed world, that descriptor is World.resolveInRoot of the parent path (the meaning of openat2 RESOLVE_IN_ROOT) on "
              "either backend and lies inside the root's tree; C14_effect_* (Proofs/KEffect.lean): run against a well-formed world that "
@@ -289,7 +313,9 @@ CLAIMS = {
              "snapshot after = snapshot before with exactly the entry (kernel-resolved parent, name) created/removed/moved/exchanged "
              "(whole subtrees move with a directory), hard-link counts accounted, link bodies equal, nothing else inside or outside "
              "the root changed, failures change nothing, create_file's descriptor is the inode now under that name, O_EXCL/NOREPLACE "
-             "honoured, a final symlink is never followed.",
+             "honoured, a final symlink is never followed; create_file over all open flags (with O_PATH the *at call is a no-follow "
+             "lookup: nothing changes, the descriptor is the entry); permission bits of every newly created entry (set-id, sticky, "
+             "umask, set-gid inheritance) equal those of the same raw call in a scratch directory with the parent's mode.",
         note="The effect of one *at call on (O_PATH directory descriptor, single name) is the kernel's contract; the oracle observes it on "
              "the live kernel. Hard-link creation's source lookup is covered by the tie and oracle, not by the shape theorem.",
         technique="Lean 4 proof (run inversion: operation = parent resolution + one acknowledged *at call + close) + exact-effect differential against kernel-resolved targets",
@@ -310,7 +336,9 @@ CLAIMS = {
              "live, the invariant (distinct keys, range) holds after every sequence of store/take operations of any length, an "
              "error is returned by the first errorinfo call and NULL by the second, other ids are undisturbed, errno table. "
              "Tie: a sequential history driven through the real C symbols is replayed step by step through the model; a "
-             "multi-threaded history (threads racing for the same ids) is checked for exactly-once consumption.",
+             "multi-threaded history (threads racing for the same ids) is checked for exactly-once consumption; a backlog history "
+             "(more than 12 000 failures outstanding at once on several threads, a third of them real failing C calls, consumed "
+             "afterwards): none lost, each with its own errno.",
         note="Threads: each table operation is atomic under the Mutex (hypothesis MutexAtomic), so every concurrent history is one "
              "of the sequences the theorem quantifies over; the random id stream is an arbitrary input of the model.",
         technique="Lean 4 proof (state-machine invariant by induction over operation sequences) + history replay",
